@@ -1,6 +1,202 @@
-From Coq Require Import List NArith Bool Lia.
-From LTV.C02 Require Import Model.
+(* C02: the theorems of DESIGN.md, stated for the configuration FileList::initialize + split
+   builds from an arbitrary layout (mk_cfg cs lay) and for arbitrary operation lists. *)
+From Coq Require Import List NArith ZArith Bool Lia ZifyBool ZifyNat ZifyN.
+From LTV Require Import Params_gen.
+From LTV.C02 Require Import Model ProofsA ProofsB.
 Import ListNotations.
 Local Open Scope N_scope.
 
-Lemma placeholder_true : True. Proof. exact I. Qed.
+Arguments N.mul : simpl never.
+Arguments N.add : simpl never.
+Arguments N.sub : simpl never.
+Arguments N.to_nat : simpl never.
+Arguments N.of_nat : simpl never.
+
+(* side conditions on the machine-integer ranges: piece length fits uint32 and is not 0 (the
+   loader enforces 1024 < cs <= 512 MiB), the piece count fits uint32, the stream is non-empty
+   and not larger than the 2^60 sanity bound of left_bytes *)
+Definition cfg_ok (cs : N) (lay : list (N * bool)) : Prop :=
+  0 < cs /\ cs < two32 /\ 0 < total lay /\ total lay <= two60 /\ ceil_div (total lay) cs < two32.
+
+Definition params_ok : bool :=
+  (2 ^ Params.c02_left_bytes_limit_shift =? two60) &&
+  (Params.c02_loader_piece_length_max <? two32) && (0 <? Params.c02_loader_piece_length_min_excl) &&
+  (Params.c02_flag_attr_padding_shift =? 7).
+Lemma params_ok_now : params_ok = true.
+Proof. vm_compute. reflexivity. Qed.
+
+Lemma cfg_laid : forall cs lay, laid 0 (c_files (mk_cfg cs lay)) (c_tot (mk_cfg cs lay)).
+Proof. intros. simpl. apply (split_laid cs lay 0). Qed.
+
+(* offsets are running sums in torrent order; sizes, padding flags and ranges are the entry's *)
+Lemma layout_offsets : forall cs lay i f, nth_error (c_files (mk_cfg cs lay)) i = Some f ->
+  exists sz pad, nth_error lay i = Some (sz, pad) /\
+    f_off f = total (firstn i lay) /\ f_size f = sz /\ f_pad f = pad /\
+    (f_r1 f, f_r2 f) = set_range cs (f_off f) sz.
+Proof.
+  intros cs lay i f H. simpl in H. apply split_nth in H.
+  destruct H as (sz & pad & H1 & H2 & H3). exists sz, pad. rewrite N.add_0_l in H2. auto.
+Qed.
+
+Lemma locate_unique : forall cs lay g, g < total lay ->
+  exists i o, located (c_files (mk_cfg cs lay)) g i o /\
+    forall i' o', located (c_files (mk_cfg cs lay)) g i' o' -> i' = i /\ o' = o.
+Proof.
+  intros cs lay g Hg. apply (locate_unique_laid 0 _ (total lay)).
+  - apply cfg_laid.
+  - lia.
+  - exact Hg.
+Qed.
+
+Lemma piece_count_and_sizes : forall cs lay, cfg_ok cs lay ->
+  let c := mk_cfg cs lay in
+  size_chunks c = ceil_div (total lay) cs /\
+  sumN (map (chunk_index_size c) (nseq 0 (N.to_nat (size_chunks c)))) = total lay /\
+  forall i, i < size_chunks c ->
+    chunk_index_size c i = N.min cs (total lay - i * cs) /\ 0 < chunk_index_size c i.
+Proof.
+  intros cs lay (H1 & H2 & H3 & H4 & H5) c.
+  split; [apply (size_chunks_exact c); auto|].
+  split; [apply (piece_sizes_sum c); auto|].
+  intros i Hi. apply (chunk_index_size_exact c); auto.
+Qed.
+
+Lemma range_exact : forall cs lay, cfg_ok cs lay ->
+  forall i f, nth_error (c_files (mk_cfg cs lay)) i = Some f -> 0 < f_size f ->
+  forall p, (f_r1 f <= p < f_r2 f) <-> touches (mk_cfg cs lay) f p.
+Proof.
+  intros cs lay (H1 & H2 & H3 & H4 & H5) i f Hf Hsz p.
+  pose proof (laid_bounds _ _ _ (cfg_laid cs lay) _ _ Hf) as [_ Hb].
+  destruct (layout_offsets _ _ _ _ Hf) as (sz & pad & _ & _ & Es & _ & Er).
+  pose proof (range_exact_one (mk_cfg cs lay) H1 H5 H2 (f_off f) (f_size f) Hb Hsz p) as R.
+  simpl in R. rewrite Es in *. rewrite <- Er in R. simpl in R. unfold touches. simpl. rewrite Es. exact R.
+Qed.
+
+Lemma empty_file_range : forall cs lay i f, nth_error (c_files (mk_cfg cs lay)) i = Some f ->
+  f_size f = 0 -> f_r1 f = f_r2 f.
+Proof.
+  intros cs lay i f Hf Hz. destruct (layout_offsets _ _ _ _ Hf) as (sz & pad & _ & _ & Es & _ & Er).
+  rewrite <- Es, Hz in Er. unfold set_range in Er. destruct (cs =? 0); simpl in Er; congruence.
+Qed.
+
+Lemma valid_piece_sound : forall cs lay, cfg_ok cs lay ->
+  forall idx off len, idx < two32 -> off < two32 -> len < two32 ->
+  (is_valid_piece (mk_cfg cs lay) idx off len = true <->
+   idx < size_chunks (mk_cfg cs lay) /\ len <> 0 /\
+   off + len <= chunk_index_size (mk_cfg cs lay) idx).
+Proof.
+  intros cs lay (H1 & H2 & H3 & H4 & H5). apply (ProofsA.valid_piece_sound (mk_cfg cs lay)); auto.
+Qed.
+
+(* ------------------------------------------------------------------ runs *)
+
+Lemma set_nth_length : forall l i, length (set_nth l i) = length l.
+Proof. induction l; intros [|i]; simpl; auto. Qed.
+
+Lemma do_chunk_done : forall c s off len w pos data rpos rn,
+  s_done (fst (do_chunk c s off len w pos data rpos rn)) = s_done s.
+Proof.
+  intros. unfold do_chunk. destruct (create_chunk c (s_store s) off len w); simpl; auto.
+  destruct w; [destruct (buffer_segs ps pos _)|]; simpl; auto.
+Qed.
+
+Lemma step_done_length : forall c s o, length (s_done (fst (step c s o))) = length (s_done s).
+Proof.
+  intros c s o. destruct o; simpl; try rewrite do_chunk_done; auto.
+  destruct (_ || _); simpl; auto.
+  destruct (nth _ _ _); simpl; auto.
+  destruct (inc_completed _ _ _); simpl; apply set_nth_length.
+Qed.
+
+Lemma run_done_length : forall c ops s, length (s_done (fst (run c s ops))) = length (s_done s).
+Proof.
+  induction ops; intros s; simpl; auto. rewrite IHops. apply step_done_length.
+Qed.
+
+(* after ANY operation list, completed_bytes is exactly the sum of the sizes of the set pieces,
+   left_bytes is the rest of the stream, and neither raises *)
+Lemma completed_bytes_exact : forall cs lay ops, cfg_ok cs lay ->
+  let c := mk_cfg cs lay in
+  let s := fst (run c (init_state c) ops) in
+  completed_bytes c (s_done s) = Some (done_sum c 0 (s_done s)) /\
+  left_bytes c (s_done s) = Some (total lay - done_sum c 0 (s_done s)) /\
+  done_sum c 0 (s_done s) <= total lay.
+Proof.
+  intros cs lay ops (H1 & H2 & H3 & H4 & H5) c s.
+  apply (ProofsA.completed_bytes_exact c); auto.
+  unfold s. rewrite run_done_length. simpl. rewrite repeat_length. lia.
+Qed.
+
+(* mark_completed sets exactly the requested bit, only when it is a valid unset piece *)
+Lemma mark_completed_exact : forall c s idx s',
+  step c s (OpMark idx) = (s', OutMark true) ->
+  idx < size_chunks c /\ nth (N.to_nat idx) (s_done s) false = false /\
+  s_done s' = set_nth (s_done s) (N.to_nat idx) /\ s_store s' = s_store s.
+Proof.
+  intros c s idx s' H. simpl in H.
+  destruct (N.leb_spec (size_chunks c) idx); simpl in H; [inversion H|].
+  destruct (N.leb_spec (size_chunks c) (count_true (s_done s))); simpl in H; [inversion H|].
+  destruct (nth (N.to_nat idx) (s_done s) false) eqn:E; [inversion H|].
+  destruct (inc_completed (c_files c) (s_fcomp s) idx); inversion H; subst; simpl. auto.
+Qed.
+
+(* ------------------------------------------------------------------ parts_cover *)
+
+Lemma parts_cover : forall cs lay store off len w st ps,
+  let c := mk_cfg cs lay in
+  length store = length (c_files c) ->
+  create_chunk c store off len w = COk st ps ->
+  off + len <= total lay /\ chunk_size ps = len /\
+  (forall p, In p ps -> 0 < p_size p /\
+     exists f, nth_error (c_files c) (p_file p) = Some f /\ 0 < f_size f /\ p_pad p = f_pad f) /\
+  forall k, k < len ->
+    exists p, In p ps /\ p_pos p <= k < p_pos p + p_size p /\
+              located (c_files c) (off + k) (p_file p) (p_foff p + (k - p_pos p)) /\
+              (forall q, In q ps -> p_pos q <= k < p_pos q + p_size q -> q = p).
+Proof.
+  intros cs lay store off len w st ps c Hlen Hc.
+  pose proof (create_chunk_ok (c_files c) c eq_refl (cfg_laid cs lay) store off len w Hlen) as K.
+  rewrite Hc in K. destruct K as (K1 & _).
+  split; [exact K1|].
+  exact (ProofsB.parts_cover (c_files c) c eq_refl (cfg_laid cs lay) store off len w st ps Hlen Hc).
+Qed.
+
+(* a request inside the stream is never refused with an error, one outside always is; a
+   writable request for a non-empty range always yields a chunk *)
+Lemma create_chunk_total : forall cs lay store off len w,
+  let c := mk_cfg cs lay in
+  length store = length (c_files c) ->
+  (create_chunk c store off len w = CErr <-> total lay < off + len) /\
+  (w = true -> 0 < len -> off + len <= total lay ->
+   exists st ps, create_chunk c store off len w = COk st ps).
+Proof.
+  intros cs lay store off len w c Hlen.
+  pose proof (create_chunk_ok (c_files c) c eq_refl (cfg_laid cs lay) store off len w Hlen) as K.
+  split.
+  - split.
+    + intros E. rewrite E in K. exact K.
+    + intros Hout. unfold create_chunk. simpl c_tot.
+      destruct (N.ltb_spec (total lay) (off + len)); [reflexivity|lia].
+  - intros Hw Hpos Hin. destruct (create_chunk c store off len w) as [|st|st ps].
+    + simpl in K. lia.
+    + destruct K as (_ & _ & [K|K]); [lia|congruence].
+    + eauto.
+Qed.
+
+(* ------------------------------------------------------------------ non-vacuity *)
+
+Example cfg_ok_ex : cfg_ok 3 [(2, false); (0, false); (5, false); (1, true); (0, false); (4, false)].
+Proof. unfold cfg_ok, ceil_div, two32, two60. simpl. repeat split; try lia; reflexivity. Qed.
+
+Example run_ex :
+  run_case 3 [(2, false); (0, false); (5, false); (1, true); (0, false); (4, false)]
+           [OpPiece 2 true 0 [17; 18] 0 3; OpMark 2; OpQuery; OpDump] =
+  [OutChunk [mkPart 0 1 2%nat 4 false; mkPart 1 1 3%nat 0 true; mkPart 2 1 5%nat 0 false]
+            WOk (Some [17; 18; 0]) (Some true);
+   OutMark true;
+   OutQuery 4 [3; 3; 3; 3]
+     [(mkFile 0 2 false 0 1, 0); (mkFile 2 0 false 0 0, 0); (mkFile 2 5 false 0 3, 1);
+      (mkFile 7 1 true 2 3, 1); (mkFile 8 0 false 2 2, 1); (mkFile 8 4 false 2 4, 1)]
+     1 (Some 3) (Some 9);
+   OutDump [Some []; Some []; Some [0; 0; 0; 0; 17]; None; Some []; Some [0; 0; 0; 0]]].
+Proof. vm_compute. reflexivity. Qed.
